@@ -107,6 +107,12 @@ pub fn generate(impl_group_idx: usize, mut impl_group: ImplGroup) -> Vec<ItemImp
             }
 
             path.ident = helper_trait::gen_ident(&path.ident, impl_group_idx);
+
+            // NOTE: Helper trait is defined next to the impls, not where the path of the main trait (or type) leads
+            if let Some(helper_trait) = trait_.segments.pop() {
+                trait_.leading_colon = None;
+                trait_.segments = core::iter::once(helper_trait.into_value()).collect();
+            }
         });
 
     impl_group.item_impls
